@@ -41,22 +41,26 @@ def run(ctx):
     samples = []
     ctx.prove_deterministic(lambda h: H.build(h).obs, [("wb_new_fail", "wb_new_ok", "wb_same_ok"), ("rb_fail", "el_rec", "rb_fail", "tick_ok"), ("wb_new_ok",)])
     complete = True
-    plans = [(True, alphabet, depth), (False, alphabet, depth), (True, H.EV_SINGLE, 5 if ctx.quick else 6)]
-    for connected, alphabet_, depth_ in plans:
-        def on_tr(hist, ev, nxt, connected=connected):
+    # fourth exploration: start in Reconnect with the error timeout already elapsed (the next request moves to Error)
+    late = ("wb_new_ok", "rb_fail", "el_rec", "rb_fail", "el_err")
+    plans = [(True, alphabet, depth, ()), (False, alphabet, depth, ()), (True, H.EV_SINGLE, 5 if ctx.quick else 6, ()),
+             (True, H.EV_SINGLE + ("tick_fail",), 4 if ctx.quick else 5, late)]
+    for connected, alphabet_, depth_, prefix_ in plans:
+        def on_tr(hist, ev, nxt, connected=connected, prefix_=prefix_):
             rec = nxt.obs[-1]
             for sig, what in check_record(rec):
-                ctx.violation(sig, what, {"connected": connected, "history": list(hist) + [ev]})
+                ctx.violation(sig, what, {"connected": connected, "history": list(prefix_) + list(hist) + [ev]})
             # non-trivial: a failed write happened earlier in the history and this event wrote to hardware
             if rec["writes"] and any(e.endswith("fail") and e.startswith("w") for e in hist):
                 stats["nontrivial"].add(H.canon(nxt))
             stats["outcomes"].add((rec["pre"], rec["ev"], rec["post"], len(rec["writes"]), bool(rec["stale"])))
-        res = explore.bfs(lambda h: H.build(h, connected), lambda s, h, a=alphabet_: H.enabled(s, h, a), H.canon, on_tr, depth_)
+        res = explore.bfs(lambda h, p=prefix_: H.build(tuple(p) + tuple(h), connected), lambda s, h, a=alphabet_: H.enabled(s, h, a),
+                          H.canon, on_tr, depth_)
         total["states"] += res.states
         total["transitions"] += res.transitions
         complete = complete and True
         samples += [list(h) for h in res.histories[-3:]]
-        ctx.note(f"[C24] connected_at_init={connected} alphabet={'single-writes' if alphabet_ is H.EV_SINGLE else 'cycles'} depth={depth_}: states={res.states} transitions={res.transitions} max_depth={res.max_depth} cut_at_bound={res.frontier_at_bound}")
+        ctx.note(f"[C24] connected_at_init={connected} alphabet={'single-writes' if alphabet_[:3] == H.EV_SINGLE[:3] and len(alphabet_) <= len(H.EV_SINGLE) + 1 else 'cycles'} prefix={list(prefix_)} depth={depth_}: states={res.states} transitions={res.transitions} max_depth={res.max_depth} cut_at_bound={res.frontier_at_bound}")
     ctx.coverage.update(
         evaluations=total["transitions"], states=total["states"], transitions=total["transitions"],
         distinct_nontrivial=len(stats["nontrivial"]), distinct_outcomes=len(stats["outcomes"]),
